@@ -610,7 +610,15 @@ def m_log(it, argv, text):
 def m_pord(it, argv, text):
     a, b = it.deref_all(argv[0]), it.deref_all(argv[1])
     if isinstance(a, OpaqueV) and a.kind == 'Duration':
-        return False    # elapsed never exceeds the progress interval: progress printing is cut
+        # elapsed time against the progress interval.  Real time is not modelled; when the harness asks for it (env.clock_fork) one
+        # environment choice per run decides whether time passes slowly (never due: the default) or quickly (always due)
+        env = getattr(it, 'env', None)
+        if env is not None and getattr(env, 'clock_fork', False):
+            if not hasattr(env, 'clock_fast'):
+                env.clock_fast = it.ctx.choose(2, 'clock') == 1
+            m_ = text.rsplit('::', 1)[-1]
+            return env.clock_fast if m_ in ('gt', 'ge') else not env.clock_fast
+        return False
     if isinstance(a, int):
         m = text.rsplit('::', 1)[-1]
         return {'gt': a > b, 'lt': a < b, 'ge': a >= b}[m]
@@ -856,6 +864,8 @@ def m_try_branch(it, argv, text):
 @model('FromResidual::from_residual')
 def m_from_residual(it, argv, text):
     v = argv[0]
+    if strip_lifetimes(text).lstrip().startswith('<Option<'):
+        return NONE               # the residual of an Option is None, however the constant operand was spelled
     if v.ename == 'Result':
         e = v.f[0]
         # `?` converts the error with From: identical types here except Report<C> from C
